@@ -117,6 +117,12 @@ func c03Scenarios(tier string) []*Scenario {
 			sc.Ordered = ordered
 		}
 	}
+	// 14. shutdown.signal outside the range of signal numbers: SIGTERM is used instead
+	for _, sg := range []int{99, -3} {
+		add(fmt.Sprintf("signal-%d", sg), fmt.Sprintf("a is configured with shutdown.signal %d", sg),
+			projectYAML(nil, PC{Name: "a", Lines: []string{"shutdown:", fmt.Sprintf("  signal: %d", sg)}}, PC{Name: "b"}),
+			map[string]*ProcScript{"a": daemon, "b": daemon}, 1, shut)
+	}
 	if tier == "thorough" {
 		add("three", "three independent processes, one restarting", projectYAML(nil, PC{Name: "a"}, PC{Name: "b", Restart: "always"}, PC{Name: "c", Deps: map[string]string{"a": "process_started"}}),
 			map[string]*ProcScript{"a": daemon, "b": {Launches: [][]Action{{Exit(0)}, {}}}, "c": daemon}, 2, shut)
